@@ -928,12 +928,17 @@ func cacheViewFromFile(
 		var fileInfo *FileInfo = nil
 		if isCached {
 			fileInfo = view.FileInfo
+			// a reload reads the file the way it was read first in this transaction
+			options.WithoutNull = fileInfo.withoutNull
+			options.AllowUnevenFields = fileInfo.allowUnevenFields
 		} else {
 			fileInfo, err = NewFileInfo(fileIdentifier, scope.Tx.Flags.Repository, options, scope.Tx.Flags.ImportOptions.Format)
 			if err != nil {
 				return
 			}
 			fileInfo.SetDefaultFileInfoAttributes(options, scope.Tx.Flags.ExportOptions)
+			fileInfo.withoutNull = options.WithoutNull
+			fileInfo.allowUnevenFields = options.AllowUnevenFields
 			filePath = fileInfo.Path
 		}
 
